@@ -85,48 +85,60 @@ ShowInt(x) == CASE x.ib = "z" -> ToString(x.io)
 (* ------------------------------- floats ------------------------------- *)
 RECURSIVE NormF(_, _)
 NormF(n, e) == IF e > 0 /\ n % 2 = 0 THEN NormF(n \div 2, e - 1) ELSE F(n, e)
-\* IEEE-754 special values: F(0, -1) is NaN, F(1, -1) is +Inf, F(-1, -1) is -Inf (exponent -1 marks them). They arise
-\* from float division by zero and from the data map; C01 asks for IEEE-754 semantics on them as on every other double.
+\* IEEE-754 special values: F(0, -1) is NaN, F(1, -1) is +Inf, F(-1, -1) is -Inf, F(0, -2) is -0 (a negative exponent
+\* marks them). They arise from float division by zero, from negating zero and from the data map; C01 asks for IEEE-754
+\* semantics on them as on every other double.
 NaN == F(0, -1)
 PInf == F(1, -1)
 NInf == F(-1, -1)
-IsSpecial(x) == x.fe = -1
+NZero == F(0, -2)
+IsSpecial(x) == x.fe < 0
 IsNaN(x) == x.fe = -1 /\ x.fn = 0
 IsInf(x) == x.fe = -1 /\ x.fn # 0
+IsNZ(x) == x.fe = -2
+FZero(x) == IsNZ(x) \/ (x.fe >= 0 /\ x.fn = 0)
+SignBit(x) == IsNZ(x) \/ x.fn < 0                \* of zeros, finite values and infinities
+Fin(x) == IF IsNZ(x) THEN F(0, 0) ELSE x          \* the magnitude: -0 compares and adds like 0
 Sign(x) == IF x.fn < 0 THEN -1 ELSE IF x.fn > 0 THEN 1 ELSE 0
 InfOf(sg) == IF sg < 0 THEN NInf ELSE PInf
+InfB(neg) == IF neg THEN NInf ELSE PInf
+ZeroB(neg) == IF neg THEN NZero ELSE F(0, 0)
 FAdd(x, y) == IF IsNaN(x) \/ IsNaN(y) THEN NaN
               ELSE IF IsInf(x) /\ IsInf(y) THEN (IF x.fn = y.fn THEN x ELSE NaN)
               ELSE IF IsInf(x) THEN x ELSE IF IsInf(y) THEN y
+              ELSE IF FZero(x) /\ FZero(y) THEN ZeroB(IsNZ(x) /\ IsNZ(y))      \* -0 + -0 = -0, every other sum of zeros is +0
+              ELSE IF FZero(x) THEN y ELSE IF FZero(y) THEN x
               ELSE LET e == IF x.fe > y.fe THEN x.fe ELSE y.fe IN
-                   NormF(x.fn * Pow2(e - x.fe) + y.fn * Pow2(e - y.fe), e)
-\* IEEE-754 has a negative zero, dyadic rationals do not: operations whose IEEE result is -0 are outside the model
-FNeg(x) == IF IsSpecial(x) THEN F(-x.fn, -1) ELSE IF x.fn = 0 THEN Unspec ELSE F(-x.fn, x.fe)
-FSub(x, y) == FAdd(x, F(-y.fn, y.fe))
+                   NormF(x.fn * Pow2(e - x.fe) + y.fn * Pow2(e - y.fe), e)       \* x + (-x) = +0
+FNeg(x) == IF IsNaN(x) THEN NaN ELSE IF IsInf(x) THEN F(-x.fn, -1) ELSE IF IsNZ(x) THEN F(0, 0)
+           ELSE IF x.fn = 0 THEN NZero ELSE F(-x.fn, x.fe)
+FSub(x, y) == FAdd(x, FNeg(y))
 FMul(x, y) == IF IsNaN(x) \/ IsNaN(y) THEN NaN
-              ELSE IF IsInf(x) \/ IsInf(y) THEN (IF x.fn = 0 \/ y.fn = 0 THEN NaN ELSE InfOf(Sign(x) * Sign(y)))
-              ELSE IF (x.fn = 0 /\ y.fn < 0) \/ (y.fn = 0 /\ x.fn < 0) THEN Unspec ELSE NormF(x.fn * y.fn, x.fe + y.fe)
-\* x / y: division by (positive) zero gives an infinity or NaN; a finite quotient is modelled only when it is again a
-\* short dyadic rational
+              ELSE IF IsInf(x) \/ IsInf(y) THEN (IF FZero(x) \/ FZero(y) THEN NaN ELSE InfB(SignBit(x) # SignBit(y)))
+              ELSE IF FZero(x) \/ FZero(y) THEN ZeroB(SignBit(x) # SignBit(y))
+              ELSE NormF(x.fn * y.fn, x.fe + y.fe)
+\* x / y: division by a zero gives an infinity or NaN; a finite quotient is modelled only when it is again a short
+\* dyadic rational
 FDiv(x, y) == IF IsNaN(x) \/ IsNaN(y) THEN NaN
               ELSE IF IsInf(x) /\ IsInf(y) THEN NaN
-              ELSE IF IsInf(x) THEN (IF y.fn < 0 THEN InfOf(-Sign(x)) ELSE x)            \* the model's zero is +0
-              ELSE IF IsInf(y) THEN (IF x.fn # 0 /\ Sign(x) = Sign(y) THEN F(0, 0) ELSE Unspec)   \* otherwise -0 (or +0 / -Inf)
-              ELSE IF y.fn = 0 THEN (IF x.fn = 0 THEN NaN ELSE InfOf(Sign(x)))
-              ELSE IF x.fn = 0 /\ y.fn < 0 THEN Unspec
+              ELSE IF IsInf(x) THEN InfB(SignBit(x) # SignBit(y))
+              ELSE IF IsInf(y) THEN ZeroB(SignBit(x) # SignBit(y))
+              ELSE IF FZero(y) THEN (IF FZero(x) THEN NaN ELSE InfB(SignBit(x) # SignBit(y)))
+              ELSE IF FZero(x) THEN ZeroB(SignBit(x) # SignBit(y))
               ELSE LET num == x.fn * Pow2(y.fe)      \* x / y = (x.fn * 2^y.fe) / (y.fn * 2^x.fe)
                        an == IF y.fn < 0 THEN -y.fn ELSE y.fn
                        sg == IF y.fn < 0 THEN -1 ELSE 1 IN
                    IF num % an = 0 THEN NormF(sg * (num \div an), x.fe) ELSE Unspec
-\* comparisons: NaN is unordered (every comparison with it is false, only != is true)
+\* comparisons: NaN is unordered (every comparison with it is false, only != is true); -0 equals +0
 FLess(x, y) == IF IsNaN(x) \/ IsNaN(y) THEN FALSE
                ELSE IF IsInf(x) \/ IsInf(y) THEN
                     (IF IsInf(x) /\ IsInf(y) THEN x.fn < y.fn ELSE IF IsInf(x) THEN x.fn < 0 ELSE y.fn > 0)
-               ELSE LET e == IF x.fe > y.fe THEN x.fe ELSE y.fe IN x.fn * Pow2(e - x.fe) < y.fn * Pow2(e - y.fe)
-FEq(x, y) == ~IsNaN(x) /\ ~IsNaN(y) /\ x.fn = y.fn /\ x.fe = y.fe     \* both normalised
+               ELSE LET a == Fin(x)  b == Fin(y)
+                        e == IF a.fe > b.fe THEN a.fe ELSE b.fe IN a.fn * Pow2(e - a.fe) < b.fn * Pow2(e - b.fe)
+FEq(x, y) == ~IsNaN(x) /\ ~IsNaN(y) /\ Fin(x) = Fin(y)     \* both normalised
 FLe(x, y) == FLess(x, y) \/ FEq(x, y)
 PadZ(s, w) == LET RECURSIVE P(_) P(t) == IF Len(t) >= w THEN t ELSE P("0" \o t) IN P(s)
-ShowFloat(x) == IF IsSpecial(x) THEN "<how NaN and the infinities print is not fixed by any property>"
+ShowFloat(x) == IF IsSpecial(x) THEN "<how NaN, the infinities and -0 print is not fixed by any property>"
                 ELSE IF x.fe = 0 THEN ToString(x.fn) \o ".0"
                 ELSE LET an == IF x.fn < 0 THEN -x.fn ELSE x.fn
                          ip == an \div Pow2(x.fe)
@@ -159,7 +171,7 @@ Printable(v) == CASE v.t \in {"err", "unspec"} -> FALSE
 (* ----------------------------- truthiness (C02) ----------------------------- *)
 Truthy(v) == CASE v.t = "bool" -> v.bv
                [] v.t = "int" -> ~IsZero(v)
-               [] v.t = "float" -> v.fn # 0 \/ IsSpecial(v)      \* a float is falsy exactly when it is zero
+               [] v.t = "float" -> ~FZero(v)                     \* a float is falsy exactly when it is zero (+0 or -0)
                [] v.t = "str" -> v.s # ""
                [] v.t = "nil" -> FALSE
                [] OTHER -> TRUE          \* arrays and objects, also empty ones
